@@ -510,6 +510,34 @@ def lookup_by_name(rep: Report, prog: Program) -> None:
                   "that is also another spelling (ft, pt, min; u for μ) resolves to a different object than the one it was declared for", fi.where())
 
 
+def definitions_return_new(rep: Report, prog: Program, rid: str) -> None:
+    """R19.14: `Unit.define(dimension, name, symbol)` declares a *new* base unit of that dimension.  If it answers with an object
+    it found in a registry, the declaration's own dimension (and the zero point `Dimension.scale` goes on to record) is dropped
+    silently: `Time.unit("meter", "m")` hands back the length unit."""
+    fi = prog.func("Unit.define")
+    defs: Dict[str, List[ast.AST]] = {}
+    for st in ast.walk(fi.node):
+        if isinstance(st, ast.Assign) and len(st.targets) == 1 and isinstance(st.targets[0], ast.Name):
+            defs.setdefault(st.targets[0].id, []).append(st.value)
+
+    def from_registry(e: ast.AST, depth: int = 0) -> bool:
+        if isinstance(e, ast.Name) and depth < 3:
+            return any(from_registry(d, depth + 1) for d in defs.get(e.id, []))
+        return any(isinstance(x, ast.Attribute) and x.attr in ("_by_name", "_by_symbol", "_known") for x in ast.walk(e)) \
+            and not (isinstance(e, ast.Call) and isinstance(e.func, ast.Name) and e.func.id in ("cls", "Unit"))
+    rets = [r for r in ast.walk(fi.node) if isinstance(r, ast.Return) and r.value is not None]
+    if not rets:
+        raise AnalysisError("Unit.define: no return found")
+    for r in rets:
+        found = from_registry(r.value)
+        # ... unless what was found is checked against what is being declared
+        compared = any(isinstance(c, ast.Compare) and "dimension" in ast.unparse(c) for c in ast.walk(fi.node))
+        rep.check(rid, f"Unit.define:return {ast.unparse(r.value)[:30]}", not found or compared,
+                  f"Unit.define returns `{ast.unparse(r.value)[:40]}`, an object looked up in a registry, without comparing its dimension with the one being "
+                  "declared: a repeated name and symbol silently turn a declaration of another unit into the existing one (Time.unit('meter', 'm') is the metre; "
+                  "Temperature.scale(0 * Kelvin, 'celsius', '°C') overwrites the zero point of the existing scale)", fi.where(r))
+
+
 def memo_over_registries(rep: Report, prog: Program, resolver: Resolver, rid: str) -> None:
     """No memoised function (transitively, context-pruned) reads a name/symbol registry: its answers
     would survive a later declaration."""
@@ -550,6 +578,7 @@ def run(rep: Report) -> None:
              "never one fetched from a name/symbol registry", floor=3)
     rep.rule("R19.11", "no assert statement in the functions that validate or register names (python -O deletes it)", floor=5)
     rep.rule("R19.12", "the name and symbol registries are plain dicts", floor=5)
+    rep.rule("R19.14", "Unit.define answers with the unit it constructs, never with one it found under the name or symbol (the declared dimension would be dropped)", floor=1)
     rep.rule("R19.10", "named(name) is the name registry's entry for that name, Prefix.resolve_symbol(symbol) the prefix symbol registry's entry for that symbol", floor=3)
     rep.rule("R19.9", "no shipped dimension or prefix is declared under two names (a second Dimension.derive / Prefix(...) of an equal object renames or doubly names the first)", floor=2)
     rep.rule("R19.6", "no memoised function reads the name/symbol registries without being invalidated by their writers", floor=1)
@@ -644,6 +673,7 @@ def run(rep: Report) -> None:
         pseen.setdefault(k, (name, where))
     rep.ok("R19.9", "shipped-prefixes", note=f"{len(pseen)} named prefixes")
     lookup_by_name(rep, prog)
+    definitions_return_new(rep, prog, "R19.14")
     no_asserts_in_definitions(rep, prog, resolver)
     registries_are_dicts(rep, prog)
     # R19.6 memo over registries (shared with C08)
